@@ -28,7 +28,7 @@ NOT_YET = {}
 
 SPECS['C01'] = dict(
     jobs=decode_jobs('asan-strict'), level='exploration', technique='exhaustive small-scope enumeration + grammar enumeration + single-edit mutation under ASan/UBSan/assert',
-    rule='Inputs: E1 every byte string of length <=3 (quick) / <=4 (thorough); E2 all grammar-enumerated well-formed encodings with <=3/4 nodes over the full head alphabet; E2p pairwise nesting; E3 every single-edit neighbour; BIG huge declared lengths and nesting at L-1..L+2. Each input sits in an exactly-sized heap block and goes through cbor_load, the streaming loop, and on success describe/size/serialize/serialize_alloc/copy/release. Oracle: no sanitizer report, assertion, signal or 20 s stall; item XOR error code; nothing left allocated. Non-trivial = input of >=2 bytes; the enumerators emit each case once per campaign (E3 cases are de-duplicated by hash).',
+    rule='Inputs: E1 every byte string of length <=3 (quick) / <=4 (thorough); E2 all grammar-enumerated well-formed encodings with <=3/4 nodes over the full head alphabet; E2p pairwise nesting; E3 every single-edit neighbour; BIG huge declared lengths and nesting at L-1..L+2; WIDE containers and strings with 22..1000 members / bytes really present around every head-width boundary (and 65535/65536-byte strings) with their truncations and +-1 count edits. Each input sits in an exactly-sized heap block and goes through cbor_load, the streaming loop, and on success describe/size/serialize/serialize_alloc/copy/release. Oracle: no sanitizer report, assertion, signal or 20 s stall; item XOR error code; nothing left allocated. Non-trivial = input of >=2 bytes; the enumerators emit each case once per campaign (E3 cases are de-duplicated by hash).',
     assumptions=COMMON_ASSUME + ['termination is judged by a 20 s no-progress watchdog for inputs that normally take microseconds'],
     level_text='Exploration: exhaustive for all byte strings up to 3 (4) bytes and for the enumerated grammar/neighbour campaigns, a sample beyond; memory safety and assertions are judged by ASan/UBSan/DEBUG asserts on executed paths only.',
     level_note='Trusts clang-14 ASan/UBSan to flag executed memory errors / UB; a stall shorter than the 20 s watchdog is not seen; absence beyond the explored inputs is not established.')
@@ -107,13 +107,13 @@ SPECS['C07'] = dict(
 
 SPECS['C11'] = dict(
     jobs=tree_jobs, level='exploration', technique='metamorphic/invariant checks on cbor_copy over generated trees: byte-image snapshot of the source, address-set disjointness, mutate/release one side and re-check the other under ASan',
-    rule='Trees of the C03 campaigns (incl. shared sub-items, empty containers, zero-chunk indefinite strings, 64-bit values, partially filled definite containers), each in two variants (mutate-then-release the copy / the source). Oracle: copy serializes to the same bytes and has the same observed shape; every copy node has refcount 1 and appears once; node and buffer address ranges of copy and source are disjoint; the byte image of every source block is unchanged by cbor_copy; after mutating every int/string byte/float and pushing to every indefinite array of one tree the other still serializes identically; after releasing one tree the other is intact (ASan) and nothing is left allocated at the end. Non-trivial = tree with a container and a string or a shared node.',
+    rule='Trees of the C03 campaigns (incl. shared sub-items, empty containers, zero-chunk indefinite strings, 64-bit values, partially filled definite containers), each in two variants (mutate-then-release the copy / the source). Oracle: copy serializes to the same bytes and has the same observed shape; every copy node has refcount 1 and appears once; node and buffer address ranges of copy and source are disjoint; the byte image of every source block is unchanged by cbor_copy; a copy starved of memory (every single request of the copy refused in turn) returns NULL and leaves every block that existed before byte-identical; after mutating every int/string byte/float and pushing to every indefinite array of one tree the other still serializes identically; after releasing one tree the other is intact (ASan) and nothing is left allocated at the end. Non-trivial = tree with a container and a string or a shared node.',
     assumptions=TREE_ASSUME,
     level_text='Exploration over enumerated and seeded trees; independence is checked by actual mutation and release, not only by address comparison.',
     level_note='Source integrity is judged on the byte image of allocator blocks, i.e. without knowledge of the struct layout.')
 
 def fault_jobs(tier, seed):
-    return [Job('drv_fault', 'asan', [], shards=NCPU, timeout=5400)]
+    return [Job('drv_fault', 'asan', [], shards=NCPU, timeout=5400), fz_job('fz_fault', 'drv_fault', 'asan', tier, corpus=None, quick_s=15, max_len=200)]
 
 SPECS['C06'] = dict(
     jobs=fault_jobs, level='fault_enumeration', technique='exhaustive enumeration of single-fault and fail-stop allocation schedules per scenario, with live-set and byte-image comparison',
@@ -131,21 +131,21 @@ HIST_ASSUME = [COMMON_ASSUME[0], COMMON_ASSUME[2],
 
 SPECS['C04'] = dict(
     jobs=hist_jobs, level='exploration', technique='model-based (stateful) testing: generated API histories executed against a shadow ownership graph, refcounts and block liveness compared after every step',
-    rule='HISTX: every history of 1..4 (thorough 1..5) ops over a 32-op alphabet of concrete calls (new of each container kind, incref, decref, intermediate_decref, push, push(move), set, replace, get in/out of range, map_add incl. key==value, add_chunk, tag_set on empty/occupied tags, tag_get, build_tag, copy, load, serialize) on a small pool; HISTR: seeded histories of 4..200 ops over the whole alphabet on 10 client slots with shared children and trees imported from cbor_load / cbor_copy / construction programs. After every step: cbor_refcount of every live item == client references + container edges of the model; every item the model says died in this step was released by the allocator and no item the model says is alive was (allocation serials, not addresses); ASan guards use-after-free/double free; at the end the client drops everything and the allocator live set must be empty. Non-trivial = some item had >=2 owners and a container was released while a child survived or vice versa; distinct by program.',
+    rule='HISTX: every history of 1..4 (thorough 1..5) ops over a 38-op alphabet of concrete calls (new of each container kind, incref, decref, intermediate_decref, push, push(move), set, replace, get in/out of range, map_add incl. key==value and with cbor_move, add_chunk (also moved), tag_set on empty/occupied tags (also moved), tag_get, build_tag, copy, load, serialize, in-place set_handle trim, and fault_next: the following call runs with its k-th allocator request refused and the model follows the outcome the call reports) on a small pool; HISTR: seeded histories of 4..200 ops over the whole alphabet on 10 client slots with shared children and trees imported from cbor_load / cbor_copy / construction programs. After every step: cbor_refcount of every live item == client references + container edges of the model; every item the model says died in this step was released by the allocator and no item the model says is alive was (allocation serials, not addresses); ASan guards use-after-free/double free; at the end the client drops everything and the allocator live set must be empty. Non-trivial = some item had >=2 owners and a container was released while a child survived or vice versa; distinct by program.',
     assumptions=HIST_ASSUME,
     level_text='Exploration with a reference model: exhaustive for short histories over a fixed op alphabet, sampled for long ones.',
     level_note='The model follows the return values the implementation reports (a refused push takes no reference); whether those return values are right is C12.')
 
 SPECS['C12'] = dict(
     jobs=hist_jobs, level='exploration', technique='model-based testing against an abstract list: exhaustive short op sequences per container kind/capacity, growth runs with realloc counting, seeded histories',
-    rule='SEQ: arrays: every sequence of up to 5 (thorough 6) calls over {push, set(i), replace(i), get(i)}, i in {0, size-1, size, size+1, size+2}, for definite capacities 0..8 and the indefinite array, plus fill-then-probe runs; maps and chunked strings: every insertion count 0..capacity+12. After every call: return value, size, allocated >= size, fixed capacity of definite containers and element identity through the handle equal the abstract list; out-of-range get is NULL, out-of-range set/replace false. GROW: 1..4096 (thorough 65537) insertions into each indefinite kind, contents checked at checkpoints, reallocation calls <= 4 + 2*ceil(log2(n+1)), capacity never shrinks. HISTR: seeded histories with the same predictions on many containers at once. Non-trivial = the sequence hits a boundary (full definite container, index >= size) or causes >=2 growths.',
+    rule='SEQ: arrays: every sequence of up to 5 (thorough 6) calls over {push, set(i), replace(i), get(i)}, i in {0, size-1, size, size+1, size+2}, for definite capacities 0..8 and the indefinite array, plus fill-then-probe runs; maps and chunked strings: every insertion count 0..capacity+12. After every call: return value, size, allocated >= size, fixed capacity of definite containers and element identity through the handle equal the abstract list; out-of-range get is NULL, out-of-range set/replace false. GROW: 1..4096 (thorough 65537) insertions into each indefinite kind, each growth step first attempted with the next allocator request refused and with every request refused (a refused insertion must leave size, handle and elements unchanged; a fallback that succeeds counts as an insertion), contents checked at checkpoints, reallocation calls <= 4 + 2*ceil(log2(n+1)), capacity never shrinks. HISTR: seeded histories with the same predictions on many containers at once. Non-trivial = the sequence hits a boundary (full definite container, index >= size) or causes >=2 growths.',
     assumptions=HIST_ASSUME[:2] + ['the logarithmic bound is deliberately loose (doubling needs 1+ceil(log2 n) reallocations); a linear growth policy needs n/k and is caught for n >= 64'],
     level_text='Exploration with a list model: exhaustive for short sequences per container configuration; growth clause checked at 29 (33) sizes per kind.',
     level_note='Index classes stand for indices (first, last, size, size+1, size+2); capacities above 8 are only covered by growth runs and seeded histories.')
 
 SPECS['C13'] = dict(
     jobs=hist_jobs, level='exploration', technique='re-running generated histories and decode pipelines under a tagging allocator and under an mmap arena allocator with ASan malloc/free hooks armed inside every libcbor call',
-    rule='ALOAD: cbor_load / serialized_size / serialize_alloc / copy / release on every E2 (<=2 nodes quick, <=3 thorough) and E2p encoding and single-edit neighbours of every 7th, under an arena allocator with no libc backing: any libc malloc/free observed (ASan hooks) while inside a libcbor call is a bypass; every arena block must be handed back exactly once, no foreign pointer, no second release. STATELESS: streaming decoder, every cbor_encode_*, cbor_serialize and cbor_serialized_size make zero allocator requests and no libc heap call. HISTR/HISTX: the C04 histories under the tagging allocator (hidden header: foreign pointers and double releases are recognised; a header-carrying block handed to libc free is an ASan bad-free) and under the arena with hooks. Non-trivial = history with >=1 realloc and the release of a multi-block item, or an input with >=2 bytes; distinct by program / input.',
+    rule='ALOAD/AFAULT: cbor_load / serialized_size / serialize_alloc / copy / release, and every single-fault schedule of load / copy / serialize_alloc, on every E2 (<=2 nodes quick, <=3 thorough) and E2p encoding and single-edit neighbours of every 7th, under an arena allocator with no libc backing: any libc malloc/free observed (ASan hooks) while inside a libcbor call is a bypass; every arena block must be handed back exactly once, no foreign pointer, no second release. STATELESS: streaming decoder, every cbor_encode_*, cbor_serialize and cbor_serialized_size make zero allocator requests and no libc heap call. HISTR/HISTX: the C04 histories under the tagging allocator (hidden header: foreign pointers and double releases are recognised; a header-carrying block handed to libc free is an ASan bad-free) and under the arena with hooks. Non-trivial = history with >=1 realloc and the release of a multi-block item, or an input with >=2 bytes; distinct by program / input.',
     assumptions=[COMMON_ASSUME[0], COMMON_ASSUME[2], '__sanitizer_install_malloc_and_free_hooks of the clang-14 ASan runtime reports every libc malloc/free; cbor_describe is exempt from the hook window because stdio may allocate (it is still run under the tagging allocator)'],
     level_text='Exploration: bypass detection is by construction (no libc backing + armed hooks), on every allocation site that the generated histories and inputs reach.',
     level_note='Allocation sites not reached by the generators are not covered; fault paths (release after a refused allocation) are covered by running C06 scenarios under the tagging allocator, not under the arena.')
